@@ -320,6 +320,20 @@ pub fn c14(tier: &str, seed: u64) -> Vec<Case> {
     v
 }
 
+/// a query of `n` questions for the TXT records of one name (the first name in full, the others as
+/// pointers to it): a few kilobytes that ask for `n` copies of every matching record, so that the reply
+/// exceeds what one UDP datagram can carry and the service's `send_to` fails
+fn amplification_query(name: &Name, n: usize) -> Vec<u8> {
+    let mut b = vec![0x14, 0x99, 0, 0];
+    b.extend_from_slice(&(n as u16).to_be_bytes());
+    b.extend_from_slice(&[0, 0, 0, 0, 0, 0]);
+    for l in name.get_labels() { b.push(l.len() as u8); b.extend_from_slice(l.as_bytes()); }
+    b.push(0);
+    b.extend_from_slice(&[0, 16, 0x80, 1]);
+    for _ in 1..n { b.extend_from_slice(&[0xC0, 12, 0, 16, 0x80, 1]); }
+    b
+}
+
 /// a sample of the hostile datagrams over loopback multicast against the real services
 fn socket_cases(tier: &str, seed: u64) -> Vec<Case> {
     use simple_mdns::sync_discovery::SimpleMdnsResponder;
@@ -330,6 +344,9 @@ fn socket_cases(tier: &str, seed: u64) -> Vec<Case> {
         let mut responder = SimpleMdnsResponder::new(10);
         let name = Name::new_unchecked("verif-c14._tcp.local");
         responder.add_resource(ResourceRecord::new(name.clone(), CLASS::IN, 10, RData::A(A { address: 0x7F000001 })));
+        let mut big = TXT::new();
+        big.add_char_string(crate::gen::mk_cs(&[b'x'; 250]));
+        responder.add_resource(ResourceRecord::new(name.clone(), CLASS::IN, 10, RData::TXT(big)));
         std::thread::sleep(Duration::from_millis(300));
         let sock = UdpSocket::bind("0.0.0.0:0").map_err(|e| format!("bind: {e}"))?;
         sock.set_read_timeout(Some(Duration::from_millis(400))).ok();
@@ -358,7 +375,9 @@ fn socket_cases(tier: &str, seed: u64) -> Vec<Case> {
             if n % 50 == 0 { std::thread::sleep(Duration::from_millis(5)); }
         }
         for d in [vec![], vec![0u8; 3], vec![0xFFu8; 11]] { let _ = sock.send_to(&d, dest); }
-        std::thread::sleep(Duration::from_millis(100));
+        // replies that no datagram can carry (400 and 1400 copies of a 250-byte TXT record)
+        for k in [400usize, 1400] { let _ = sock.send_to(&amplification_query(&name, k), dest); n += 1; }
+        std::thread::sleep(Duration::from_millis(300));
         if ask(&sock) { Ok(format!("alive after {} datagrams", n)) } else { Err(format!("the responder answered before but not after {} hostile datagrams", n)) }
     });
     let mut c = Case::oracle_only().tag("sockets");
@@ -397,6 +416,9 @@ fn live_tokio(tier: &str, seed: u64) -> Vec<Case> {
             let mut responder = SimpleMdnsResponder::new(10);
             let name = Name::new_unchecked("verif-c14t._tcp.local");
             responder.add_resource(ResourceRecord::new(name.clone(), CLASS::IN, 10, RData::A(A { address: 0x7F000001 }))).await;
+            let mut big = TXT::new();
+            big.add_char_string(crate::gen::mk_cs(&[b'x'; 250]));
+            responder.add_resource(ResourceRecord::new(name.clone(), CLASS::IN, 10, RData::TXT(big))).await;
             nap(300).await;
             let mut q = Packet::new_query(0x1415);
             q.questions.push(Question::new(name.clone(), TYPE::A.into(), CLASS::IN.into(), true));
@@ -422,7 +444,8 @@ fn live_tokio(tier: &str, seed: u64) -> Vec<Case> {
                     let mut n = 0;
                     for d in hostile.iter() { let _ = sock.send_to(d, dest); n += 1; if n % 25 == 0 { nap(5).await; } }
                     for d in [vec![], vec![0u8; 3], vec![0xFFu8; 11]] { let _ = sock.send_to(&d, dest); }
-                    nap(100).await;
+                    for k in [400usize, 1400] { let _ = sock.send_to(&amplification_query(&name, k), dest); }
+                    nap(300).await;
                 } else { after = answered; }
             }
             if !baseline { c = c.tag("sockets-not-exercised"); }
